@@ -68,6 +68,9 @@ pub struct Instance {
     pub cancel_budget: u8,
     /// async only: how many 30 s clock steps the environment may take per session
     pub tick_budget: u8,
+    /// the clock steps may add up to the documented read timeout (instances without scripted writes only):
+    /// the read then returns Err(Timeout) like any transient error - nothing buffered is lost
+    pub allow_timeout: bool,
     /// how many storms (300 not-ready answers in a row) the environment may raise per session
     pub storm_budget: u8,
     /// handshake(isi) is performed (and its bytes accepted and set aside) before the program starts
@@ -109,6 +112,7 @@ impl Instance {
             pending_budget: 0,
             cancel_budget: 0,
             tick_budget: 0,
+            allow_timeout: false,
             storm_budget: 0,
             handshake: None,
             cancel_writes: false,
@@ -220,7 +224,8 @@ fn enabled(inst: &Instance, hist: &[Act], r: &RunResult) -> Vec<Act> {
     if is_async && r.asked.is_some() {
         let (total, streak) = ticks(hist);
         // never let the documented read timeout elapse: (streak + 1) steps must stay below it
-        if total < inst.tick_budget && (streak as u64 + 1) * super::e2::world::TICK_SECS < insim::net::DEFAULT_TIMEOUT_SECS {
+        let reach = (streak as u64 + 1) * super::e2::world::TICK_SECS;
+        if total < inst.tick_budget && (reach < insim::net::DEFAULT_TIMEOUT_SECS || (inst.allow_timeout && !inst.script_writes && reach < insim::net::DEFAULT_TIMEOUT_SECS + super::e2::world::TICK_SECS)) {
             out.push(Act::Tick);
         }
     }
